@@ -350,7 +350,17 @@ class Env:
         await _Suspend("op")
         r = self.op()
         if r is _HANG:
-            await asyncio.get_running_loop().create_future()      # until the runner cancels it
+            # does not come back until the runner cancels it.  The timer of the attempt timeout is due
+            # already (the clock moved by ATimeout); should the runner have armed it for later, time
+            # goes on passing while the operation hangs, so the run ends - late, which M rejects
+            spins = 0
+            while True:
+                await asyncio.sleep(0)
+                spins += 1
+                if spins > 20:
+                    self.clock.advance(1)
+                if spins > 3000:
+                    raise AssertionError("the attempt timeout never fired")
         return r
 
     # ------------------------------------------------------------------ classifiers
